@@ -611,7 +611,11 @@ func (e *Enc) allocMonotone(before, after *St) {
 	a := e.allocComp()
 	b0, b1 := e.get(before, a), e.get(after, a)
 	if b0 != b1 {
-		e.assume(fmt.Sprintf("(<= %s %s)", b0, b1))
+		if allocCounter {
+			e.assume(fmt.Sprintf("(<= %s %s)", b0, b1))
+		} else {
+			e.assume(fmt.Sprintf("(forall ((o Ref)) (! (=> (select %s o) (select %s o)) :pattern ((select %s o))))", b0, b1, b1))
+		}
 	}
 }
 
@@ -853,7 +857,7 @@ func (e *Enc) typeFacts(v Val, t types.Type, cur *pathState) {
 	case "Slice":
 		e.assume(fmt.Sprintf("(and (>= (s_len %s) 0) (>= (s_off %s) 0) (>= (s_cap %s) (s_len %s)) (=> (= (s_arr %s) nil) (= (s_cap %s) 0)))", v.T, v.T, v.T, v.T, v.T, v.T))
 		if cur != nil {
-			e.assume(fmt.Sprintf("(isalloc %s (s_arr %s))", e.get(cur.st, e.allocComp()), v.T))
+			e.assume(isAlloc(e.get(cur.st, e.allocComp()), "(s_arr "+v.T+")"))
 		}
 	case "Int":
 		if b, ok := t.Underlying().(*types.Basic); ok && b.Info()&types.IsUnsigned != 0 {
@@ -863,7 +867,7 @@ func (e *Enc) typeFacts(v Val, t types.Type, cur *pathState) {
 		if cur != nil {
 			switch t.Underlying().(type) {
 			case *types.Pointer, *types.Map, *types.Chan:
-				e.assume(fmt.Sprintf("(isalloc %s %s)", e.get(cur.st, e.allocComp()), v.T))
+				e.assume(isAlloc(e.get(cur.st, e.allocComp()), v.T))
 			}
 		}
 	}
@@ -977,8 +981,9 @@ func (e *Enc) allocSubObjects(cur *pathState, ref string, t types.Type) {
 		ft := u.Field(i).Type()
 		if isObjStruct(ft) {
 			sub := e.subAddr(t, i, ref)
-			e.assume(eq("(atime "+sub+")", e.get(cur.st, a)))
-			e.set(cur.st, a, "(+ "+e.get(cur.st, a)+" 1)")
+			fact, next := allocNew(e.get(cur.st, a), sub)
+			e.assume(fact)
+			e.set(cur.st, a, next)
 			e.allocSubObjects(cur, sub, ft)
 		}
 	}
@@ -988,8 +993,9 @@ func (e *Enc) newObject(cur *pathState, base string) string {
 	r := e.fresh(base)
 	e.declare(r, "Ref")
 	a := e.allocComp()
-	e.assume(fmt.Sprintf("(and (not (= %s nil)) (= (atime %s) %s))", r, r, e.get(cur.st, a)))
-	e.set(cur.st, a, "(+ "+e.get(cur.st, a)+" 1)")
+	fact, next := allocNew(e.get(cur.st, a), r)
+	e.assume(and(not(eq(r, "nil")), fact))
+	e.set(cur.st, a, next)
 	return r
 }
 
